@@ -307,7 +307,8 @@ def set_case(case):
     ts.item_validator = validator
     ts.notifiers.append(lambda s, r, a: events.append(((set(r), set(a)), set(s))))
     op, args = case["op"], case.get("args", {})
-    operands = [set(o) for o in args.get("operands", [])]
+    mk_operand = frozenset if case.get("ov") == "frozenset-operand" else set
+    operands = [mk_operand(o) for o in args.get("operands", [])]
     violated = []
     ident = all(validator(x) == x for o in operands for x in o if case.get("validator", {}).get("ok", {}).get(str(x), True))
 
